@@ -2,6 +2,7 @@ import Mieru.Proofs.Arq
 import Mieru.Proofs.SegTree
 import Mieru.Gen.Facts
 import Mieru.Gen.UdpFacts
+import Mieru.Proofs.SeqWrap
 /-!
 # C13 — acks never run ahead of receipt; retransmissions never change content
 
@@ -221,5 +222,39 @@ example : ∃ s, Reach 4 s ∧ s.acked = [1] ∧ s.sent.length = 2 := by
   have r4 := Reach.step r3 (Step.recvData s3 ⟨0, 5⟩ (by decide))
   have r5 := Reach.step r4 (Step.sendAck _)
   exact ⟨_, r5, by decide, by decide⟩
+
+/-! ## uint32 sequence numbers (`Mieru.Model.SeqWrap`)
+
+The models count segments in `Nat`; the code stores `u32 n = n % 2^32` and compares with plain `<`, `<=`, `==`. -/
+
+/-- Below the bound the Nat models ARE the code: while every number involved is < 2^32 — i.e. fewer than 2^32
+    segments have been numbered in this direction of the session (`nextSend` = number of segments created) — the
+    stored comparisons `<`, `≤`, `=` coincide with the unbounded ones, and `nextSend++` does not wrap. -/
+theorem seq_no_wrap_below_bound {a b : Nat} (ha : a < 2 ^ 32) (hb : b < 2 ^ 32) :
+    (SeqWrap.u32 a < SeqWrap.u32 b ↔ a < b) ∧ (SeqWrap.u32 a ≤ SeqWrap.u32 b ↔ a ≤ b) ∧
+    (SeqWrap.u32 a = SeqWrap.u32 b ↔ a = b) ∧
+    (a + 1 < 2 ^ 32 → SeqWrap.u32 (a + 1) = SeqWrap.u32 a + 1) :=
+  have h := SeqWrap.cmp_below_bound ha hb
+  ⟨h.1, h.2.1, h.2.2, SeqWrap.succ_below_bound⟩
+
+/-- Documented limit (not a defect finding): the session does not survive a wrap. For EVERY pair `lo < 2^32 ≤ hi`
+    less than 2^32 apart — in particular any live window that straddles 2^32 — the code's `<` is inverted.
+    Concretely with seq = 2^32−1 and unAckSeq = 2^32+1: `seq < unAckSeq` is false on the stored values, so the
+    discard loop of `inputAck` keeps an acknowledged segment; and with nextRecv = 2^32−1 the receiver guard
+    `seq < nextRecv` treats the new segments 2^32, 2^32+1 (stored 0, 1) as stale. The wrap needs 2^32 numbered
+    segments in one direction of one session: at least 2^32 payload bytes (4 GiB) if every segment carries one
+    byte, about 5.5 TiB at the usual ~1.4 KB per segment. -/
+theorem seq_wrap_breaks_comparison :
+    (∀ lo hi, lo < 2 ^ 32 → 2 ^ 32 ≤ hi → hi < lo + 2 ^ 32 →
+      lo < hi ∧ SeqWrap.ltCode lo hi = false ∧ SeqWrap.ltCode hi lo = true) ∧
+    SeqWrap.discardCode (2 ^ 32 - 1) (2 ^ 32 + 1) = false ∧
+    SeqWrap.staleCode (2 ^ 32) (2 ^ 32 - 1) = true ∧ SeqWrap.staleCode (2 ^ 32 + 1) (2 ^ 32 - 1) = true ∧
+    SeqWrap.u32 (2 ^ 32) = 0 :=
+  ⟨fun _ _ => SeqWrap.straddle_inverts, by decide, by decide, by decide, by decide⟩
+
+/-- non-vacuity: the comparisons below the bound, at the last number before the wrap -/
+example : SeqWrap.ltCode (2 ^ 32 - 2) (2 ^ 32 - 1) = true ∧ SeqWrap.eqCode 7 7 = true ∧ SeqWrap.leCode 8 7 = false ∧
+    SeqWrap.serialLt (2 ^ 32 - 1) (2 ^ 32 + 1) = true := by decide
+
 
 end Mieru.C13
